@@ -3,6 +3,7 @@ import ForML.Model.Sexp
 import ForML.Model.Strategy
 import ForML.Model.StrategyLatest
 import ForML.Model.StrategyFloat
+import ForML.Model.StrategyBuilder
 open ForML ForML.Strategy
 
 def optNat? : Sexp → Option (Option Nat)
@@ -23,7 +24,26 @@ def lop? : Sexp → Option LOp
   | .list [.atom "publish", r] => r.nat?.map .publish
   | .list [.atom "commit", r] => r.nat?.map .commit
   | .list [.atom "select", u] => (bool? u).map .select
+  | .list [.atom "fault", .atom "missing"] => some (.fault .missing)
+  | .list [.atom "fault", .atom "invalid"] => some (.fault .invalid)
+  | .list [.atom "fault", .atom "os"] => some (.fault .os)
+  | .list [.atom "fault", .atom "other"] => some (.fault .other)
   | _ => none
+
+def variant? : Sexp → Option Variant
+  | .list [p, r, g, t] => do pure ⟨← p.nat?, ← r.nat?, ← g.nat?, ← optNat? t⟩
+  | _ => none
+
+def varg? : Sexp → Option VArg
+  | .list [g, r, p, t] => do pure ⟨← g.nat?, ← optNat? r, ← optNat? p, ← optNat? t⟩
+  | _ => none
+
+def ofOptNat : Option Nat → Sexp
+  | none => .atom "none"
+  | some n => Sexp.ofNat n
+
+def ofVariant (v : Variant) : Sexp :=
+  .list [Sexp.ofNat v.project, Sexp.ofNat v.release, Sexp.ofNat v.generation, ofOptNat v.target]
 
 def eop? : Sexp → Option EOp
   | .atom "select" => some .select
@@ -71,6 +91,13 @@ def stepC17 : Sexp → Sexp
       let (s, obs) := runL survive cfg (LState.init rels) ops
       .list [.atom "ok", .list (obs.map ofObs), Sexp.ofBool s.alive]
     | _, _, _, _ => .atom "bad-op"
+  -- the variant list `compare(first).over(..)…against(..)` hands to `ABTest.__init__` (or its refusal)
+  | .list [.atom "abbuild", first, .list args] =>
+    match variant? first, args.mapM varg? with
+    | some first, some args =>
+      let vs := Builder.build first args
+      if exclusive vs then .list [.atom "ok", .list (vs.map ofVariant)] else .list [.atom "err", .atom "exclusive"]
+    | _, _ => .atom "bad-op"
   | .list [.atom "ehist", r, g, .list rels, .list ops] =>
     match r.nat?, g.nat?, rels.mapM rel?, ops.mapM eop? with
     | some r, some g, some rels, some ops =>
